@@ -77,6 +77,10 @@ CHECKS = {
    text="Arithmetic: for texts enumerated from a bounded operator grammar the polynomial the real parser produces is compared with the value Python's own grammar assigns to the same text by one z3 query over all variable values. Spellings: every program of the corpora and of the generated family is printed in nine spellings (whitespace/comments/CRLF/tabs, parentheses, decimals, explicit last probability, temporaries instead of simultaneous assignment, nested else-if); the real parser's result is compared with the denoted program by one-iteration and initial-block test-function expectations for all pre-states and parameters (and closed forms at n <= 3 in the thorough tier). Ill-formed texts and invalid probability vectors must be rejected (enumerated).",
    ref="DESIGN.md 3/C19", tech="z3 equivalence of parsed polynomial vs Python-precedence value; one-iteration law equivalence (C02 machinery) between the parsed spelling and the denoted program",
    note="Trusted: Python's ast for precedence, the harness's own reader/printer (it must read all its own spellings as one program, harness error otherwise), vlib/sem.py, z3. The text itself is not symbolic: texts are enumerated from the rewrite system and expression grammar."),
+ "C20": dict(cat="exploration",
+   text="Process histories are enumerated (each in a fresh interpreter: repetition, prefixes of other analyses, permutations of goals, PYTHONHASHSEED values, exact-mode flag flips, a settings residue after PlotAction, multi-benchmark CLI runs) and the result of the last analysis is compared with the same analysis in a fresh process. Equality 'up to names of generated symbols' is decided semantically: closed forms by z3 equivalence at every n <= 4 for all parameter values, invariants by mutual ideal inclusion, inferred types by value sets, error outcomes by type.",
+   ref="DESIGN.md 3/C20", tech="enumeration of process histories; z3 decides semantic equality of the results (the history quantifier itself is not symbolic)",
+   note="The quantifier of this property ranges over concrete process runs, which no solver encodes: histories of <= 3 analyses, <= 3 goals, 4/16 hash seeds are enumerated. The solver removes the false alarms a textual comparison would raise (term order changes with the hash seed)."),
 }
 NA_REASON = "check not built yet in this session (see DESIGN.md section 3 for the planned solver-based check)"
 
